@@ -173,7 +173,9 @@ pub fn private_tokens(sink: &mut Sink, cfg: &str, r: &mut Rng, thorough: bool) {
     }
     // every truncation of the plain documents (and of the padded multi-line form): EOF classes in every phase
     for tok in [NUM, RAW, "\\u0024serde_json::private::Number"] {
-        for body in ["\"1\"", "\"1e5\"", "\"abc\"", "1", "-1.5", "null", "[ ]", "\"1\",\"b\":2", "\"\\u0031\""] {
+        let quick_bodies: [&str; 9] = ["\"1\"", "\"1e5\"", "\"abc\"", "1", "-1.5", "null", "[ ]", "\"1\",\"b\":2", "\"\\u0031\""];
+        let cut_bodies: &[&str] = if thorough { &bodies } else { &quick_bodies };
+        for body in cut_bodies.iter() {
             for doc in [format!("{{\"{}\":{}}}", tok, body), format!("[ {{ \"{}\"\n : {}\n }} ]", tok, body)] {
                 let b = doc.as_bytes();
                 let lo = if thorough { 0 } else { doc.find(':').unwrap_or(0).saturating_sub(3) };
